@@ -278,3 +278,46 @@ Section Preimages.
   Definition collision_among (ps : list (bytes * bytes)) : Prop :=
     exists x y, In (x, y) ps /\ x <> y /\ K x = K y.
 End Preimages.
+
+(* ------------------------------------------------------------------------------------- *)
+(* The ORDER in which the two encoders append the members to [data], tied to the source: the
+   right-hand sides of the assignments to [data] in GetBidHash / GetPreConfirmationHash are
+   regenerated from signer.go (c03_bid_data_chain, c03_commit_data_chain); each is classified
+   by the member it mentions, and the model's order below is proved to be the classified order
+   (Eip712_proofs.data_chain_order), so that swapping two appends breaks a reflexivity fact. *)
+Inductive data_item := DTypeAndTx | DAmount | DBlock | DStart | DEnd | DBidDigest | DBidSig.
+
+Fixpoint is_prefix (p l : bytes) : bool :=
+  match p, l with
+  | [], _ => true
+  | a :: p', b :: l' => (a =? b) && is_prefix p' l'
+  | _ :: _, [] => false
+  end.
+Fixpoint contains (needle hay : bytes) : bool :=
+  is_prefix needle hay || match hay with [] => false | _ :: r => contains needle r end.
+
+Definition classify_item (e : bytes) : option data_item :=
+  if contains (bos "TypeHash") e && contains (bos "txnHash") e then Some DTypeAndTx
+  else if contains (bos "BlockNumber") e then Some DBlock
+  else if contains (bos "DecayStart") e then Some DStart
+  else if contains (bos "DecayEnd") e then Some DEnd
+  else if contains (bos "Digest") e then Some DBidDigest
+  else if contains (bos "Sig") e then Some DBidSig
+  else if contains (bos "Amt") e || contains (bos "Amount") e then Some DAmount
+  else None.
+(* every later step appends to what is already there *)
+Definition appends_to_data (e : bytes) : bool := is_prefix (bos "append(data,") e.
+
+Definition bid_item_order : list data_item := [DTypeAndTx; DAmount; DBlock; DStart; DEnd].
+Definition commitment_item_order : list data_item := bid_item_order ++ [DBidDigest; DBidSig].
+
+Definition item_bytes (K : bytes -> bytes) (ls : list bytes) (b : bid) (A : Z) (it : data_item) : bytes :=
+  match it with
+  | DTypeAndTx => K (lit_struct_type ls) ++ K (b_tx b)
+  | DAmount => u256bytes A
+  | DBlock => u256bytes (b_bn b)
+  | DStart => u256bytes (b_ds b)
+  | DEnd => u256bytes (b_de b)
+  | DBidDigest => K (hex (obytes (b_dig b)))
+  | DBidSig => K (hex (obytes (b_sig b)))
+  end.
